@@ -12,8 +12,11 @@ structure St where
   noHdr : List Nat := []
   noBody : List Nat := []
   frozen : List Block := []
-  /-- model the repair proposed for F17 (`ckbmodel_c10 C10 f17-fixed`) -/
-  f17fixed : Bool := false
+  /-- model the code before the repair of F17 (`ckbmodel_c10 C10 pre-f17`; the default is /repo as
+  it is: F17 and F18 repaired; the former argument `f17-fixed` is accepted and ignored) -/
+  preF17 : Bool := false
+  /-- model the code before the repair of F18 (`pre-f18`): part accessors read the kv rows only -/
+  preF18 : Bool := false
 
 def toFS (s : St) : FS :=
   { v := s.c.v,
@@ -38,26 +41,41 @@ def query (s : St) : String :=
     | none => none
     | some blk =>
       let h := f.hdr id
-      let b := match (if s.f17fixed then getBlockF17 f id else getBlock f id) with
+      let b := match (if s.preF17 then getBlockPreF17 f id else getBlock f id) with
         | .some fb => if fb.id = id then "=" else "!"
         | .none => "-"
         | .panic => "P"
-      let part := (getPart f id).isSome
+      let partB := if s.preF18 then getPartPreF18 f id else getPart f id
+      let part := partB.isSome
       -- the genesis block carries no extension (rfc0044 extensions start with block 1)
       let ext := part && id != 0
-      let t := if part then blk.txs.length else 0
-      let k := if (getPacked f id).isSome then "=" else "-"
+      -- `get_block_body` / `get_block_txs_hashes`: the transactions of the block that answers
+      let t := match partB with | some pb => pb.txs.length | none => 0
+      let same (o : Option Block) : String :=
+        match o with | some pb => if pb.id = id && pb == blk then "=" else "!" | none => "-"
+      let k := same (if s.preF18 then getPackedPreF18 f id else getPacked f id)
+      -- the part answers belong to the block asked for
+      let pc := match partB with | some pb => if pb.id = id && pb == blk then flag true else "!" | none => flag false
       let m := if (f.v.m.rindex id).isSome then "m" else "s"
-      some s!"b{id}:{flag h}{b}{t}{flag part}{flag part}{flag part}{flag ext}{k}{m}"
+      -- R: raw COLUMN_BLOCK_HEADER row (`get_packed_block_header`); D: the extension as the
+      -- `load_block_extension` syscall reads it (DataLoader = `get_block_extension`)
+      some s!"b{id}:{flag h}{b}{t}{pc}{flag part}{flag part}{flag ext}{k}{flag h}{flag ext}{m}"
   let ts := txIds.filterMap fun t =>
     match f.v.m.txInfo t with
     | none => none
-    | some _ => some s!"t{t}:{if (getTx f t).isSome then "=" else "-"}"
+    | some _ =>
+      -- `=` the transaction asked for, `!` another one (only after a reorg below the frozen height:
+      -- the dispatch is by the NUMBER in the tx-info row), `-` nothing
+      let w := match getTx f t with
+        | some (tx, _) => if tx.id = t then "=" else "!"
+        | none => "-"
+      some s!"t{t}:{w}"
   " ".intercalate ([s!"frozen={frozenNumber f}", s!"tip={tip}"] ++ bs ++ ts)
 
 def step (s : St) (ts : List String) : St × String :=
   match ts with
-  | ["freeze"] =>
+  | "freeze" :: _ =>
+    -- `freeze` / `freeze cold` (the harness evaluates no accessor before the pass): the same pass
     let f := toFS s
     let (f', r) := freeze f
     let s' := fromFS s f'
@@ -80,8 +98,8 @@ def step (s : St) (ts : List String) : St × String :=
     match C02.parseBlock s.c ts with
     | none => (s, "bad-op")
     | some (c1, b) =>
-      if !s.f17fixed && 0 < b.number && b.number < s.frozen.length + 1 then
-        -- a block stored at an already frozen height: `get_block(hash)` hands the chain service the
+      if s.preF17 && 0 < b.number && b.number < s.frozen.length + 1 then
+        -- (before ea444a5) a block stored at an already frozen height: `get_block(hash)` hands the chain service the
         -- frozen main-chain block of that height instead, which is already verified: nothing but
         -- `insert_block` happens
         let (c2, out) := C02.commit c1 ⟨c1.v.m, Store.insertBlock c1.v.r b⟩ "known "
@@ -94,6 +112,6 @@ def step (s : St) (ts : List String) : St × String :=
     ({ s with c := c' }, out)
 
 def main (args : List String) : IO UInt32 :=
-  runLines ({ f17fixed := args.contains "f17-fixed" } : St) step
+  runLines ({ preF17 := args.contains "pre-f17", preF18 := args.contains "pre-f18" } : St) step
 
 end CkbVerif.Driver.C10
